@@ -16,7 +16,9 @@ MUT = "/tmp/mut"
 
 
 def src_of(pid, n):
-    """(directory, file number) of mutant n: 1,2 = round 1 (out1/), 3,4 = round 2 (out2/), 5,6 = round 3 (out3/), 7,8 = round 4 (out4/), 9,10 = round 5 (out/), 11 = round 6 (out6/)."""
+    """(directory, file number) of mutant n: 1,2 = round 1 (out1/), 3,4 = round 2 (out2/), 5,6 = round 3 (out3/), 7,8 = round 4 (out4/), 9,10 = round 5 (out/), 11 = round 6 (out6/), 12 = round 7 (out7/)."""
+    if n >= 12:
+        return f"{MUT}/{pid}/out7", n - 11
     if n >= 11:
         return f"{MUT}/{pid}/out6", n - 10
     if n >= 9:
@@ -121,7 +123,7 @@ def store(pid, n, extra):
     json.dump(meta, open(f"{dst}/meta.json", "w"), indent=1)
 
 
-ROUND = {"2": (3, 4), "3": (5, 6), "4": (7, 8), "5": (9, 10), "6": (11,)}.get(os.environ.get("MUT_ROUND", "1"), (1, 2))
+ROUND = {"2": (3, 4), "3": (5, 6), "4": (7, 8), "5": (9, 10), "6": (11,), "7": (12,)}.get(os.environ.get("MUT_ROUND", "1"), (1, 2))
 
 
 def sweep(ids):
